@@ -219,22 +219,37 @@ func MavenUniverse(o MavenUOpts) *rapid.Generator[Universe] {
 		n := npkgs(t)
 		u := Universe{System: "maven"}
 		density := rapid.IntRange(1, 4).Draw(t, "density")
+		// first pass: versions, so that most requirements name existing ones
+		vlists := make([][]string, n)
+		for i := 0; i < n; i++ {
+			vlists[i] = pickDistinct(t, mavenVersionPool, rapid.IntRange(1, 5).Draw(t, "nv"), "versions")
+		}
 		for i := 0; i < n; i++ {
 			p := UPkg{Name: names[i]}
-			vs := pickDistinct(t, mavenVersionPool, rapid.IntRange(1, 5).Draw(t, "nv"), "versions")
+			vs := vlists[i]
 			for _, v := range vs {
 				uv := UVer{Version: v}
 				nr := rapid.IntRange(0, density).Draw(t, "nreq")
 				used := map[string]bool{}
 				for k := 0; k < nr; k++ {
-					r := UReq{Name: names[rapid.IntRange(0, n-1).Draw(t, "target")]}
-					if rapid.IntRange(0, 19).Draw(t, "missing") == 0 {
+					ti := rapid.IntRange(0, n-1).Draw(t, "target")
+					r := UReq{Name: names[ti]}
+					missing := rapid.IntRange(0, 39).Draw(t, "missing") == 0
+					if missing {
 						r.Name = "z:missing"
 					}
-					if !o.NoRanges && rapid.IntRange(0, 9).Draw(t, "hard") < 3 {
-						r.Req = rapid.SampledFrom(mavenHard).Draw(t, "range")
-					} else {
+					existing := rapid.SampledFrom(vlists[ti]).Draw(t, "aim")
+					switch {
+					case !o.NoRanges && rapid.IntRange(0, 9).Draw(t, "hard") < 3:
+						if rapid.Bool().Draw(t, "aimrange") {
+							r.Req = rapid.SampledFrom([]string{"[" + existing + "]", "[" + existing + ",)", "(," + existing + "]", "[" + existing + ",9.0)", "[0.1," + existing + "]"}).Draw(t, "rangeform")
+						} else {
+							r.Req = rapid.SampledFrom(mavenHard).Draw(t, "range")
+						}
+					case rapid.IntRange(0, 19).Draw(t, "stray") == 0:
 						r.Req = rapid.SampledFrom(mavenSoft).Draw(t, "soft")
+					default:
+						r.Req = existing
 					}
 					var parts []string
 					switch tk := rapid.IntRange(0, 23).Draw(t, "type"); {
@@ -269,13 +284,14 @@ func MavenUniverse(o MavenUOpts) *rapid.Generator[Universe] {
 				// dependencyManagement entries (only meaningful on a root)
 				if rapid.IntRange(0, 3).Draw(t, "hasmgmt") == 0 {
 					for k, nm := 0, rapid.IntRange(1, 2).Draw(t, "nmgmt"); k < nm; k++ {
-						tn := names[rapid.IntRange(0, n-1).Draw(t, "mgtarget")]
+						mi := rapid.IntRange(0, n-1).Draw(t, "mgtarget")
+						tn := names[mi]
 						key := tn + "|mgmt"
 						if used[key] {
 							continue
 						}
 						used[key] = true
-						uv.Reqs = append(uv.Reqs, UReq{Name: tn, Req: rapid.SampledFrom(mavenSoft).Draw(t, "mgver"), Type: "MavenDependencyOrigin management"})
+						uv.Reqs = append(uv.Reqs, UReq{Name: tn, Req: rapid.SampledFrom(vlists[mi]).Draw(t, "mgver"), Type: "MavenDependencyOrigin management"})
 					}
 				}
 				p.Versions = append(p.Versions, uv)
